@@ -409,12 +409,13 @@ def build_file(i, L, spec, al, probes, defsig=""):
     if page:
         body += [("T", " z="), ("E", "z")]
     if anon:
-        body.append(("B", None, [("T", "(anon@%d)" % i)]))
+        # every anonymous block starts on a line of its own (two on one line: see the error grid)
+        body += [("T", "\n"), ("B", None, [("T", "(anon@%d)" % i)])]
     node2 = member_node(m2, n2, i, fill, [], defsig) if m2 != "-" else None
     if m1 != "-":
         inner = []
         if anon:
-            inner.append(("B", None, [("T", "(anon-in-%s@%d)" % (n1, i))]))
+            inner += [("T", "\n"), ("B", None, [("T", "(anon-in-%s@%d)" % (n1, i))])]
         if nest:
             inner.append(node2)
         body.append(member_node(m1, n1, i, fill, inner, defsig))
@@ -591,6 +592,9 @@ def grids(tier):
 # error grid: positions of named blocks inside one template
 
 
+NL = ("T", "\n")
+
+
 def _place(pos, blk, tagn):
     """nodes that put block node `blk` at position `pos`; tagn distinguishes helper names of the two slots"""
     if pos == "top":
@@ -598,7 +602,7 @@ def _place(pos, blk, tagn):
     if pos == "in-block":
         return [("B", "w%d" % tagn, [("T", "<w%d>" % tagn), blk])]
     if pos == "in-anon":
-        return [("B", None, [("T", "<anon>"), blk])]
+        return [NL, ("B", None, [("T", "<anon>"), blk])]
     if pos == "in-block-in-block":
         return [("B", "v%d" % tagn, [("B", "u%d" % tagn, [blk])])]
     if pos == "in-if":
@@ -606,7 +610,7 @@ def _place(pos, blk, tagn):
     if pos == "in-def":
         return [("D", "f%d" % tagn, [blk], "")]
     if pos == "in-anon-in-def":
-        return [("D", "f%d" % tagn, [("B", None, [blk])], "")]
+        return [("D", "f%d" % tagn, [NL, ("B", None, [blk])], "")]
     if pos == "in-def-in-block":
         return [("B", "w%d" % tagn, [("D", "f%d" % tagn, [blk], "")])]
     if pos == "in-call":
@@ -614,13 +618,29 @@ def _place(pos, blk, tagn):
     if pos == "in-nscall":
         return [("CN", [blk])]
     if pos == "in-block-in-call":
-        return [("C", [("B", None, [blk])])]
+        return [("C", [NL, ("B", None, [blk])])]
     raise ValueError(pos)
 
 
 GRID_POS_LEGAL = ["top", "in-block", "in-anon", "in-block-in-block", "in-if"]
 GRID_POS_ILLEGAL = ["in-def", "in-anon-in-def", "in-def-in-block", "in-call", "in-nscall", "in-block-in-call"]
 GRID_POS = GRID_POS_LEGAL + GRID_POS_ILLEGAL
+
+
+def _anon_lines(nodes, same_line):
+    """rewrite so that all anonymous blocks start on one line (drop the line feeds) or each on its own"""
+    out = []
+    for nd in nodes:
+        if nd == NL:
+            continue
+        if nd[0] in ("B", "D"):
+            nd = (nd[0], nd[1], _anon_lines(nd[2], same_line)) + tuple(nd[3:])
+        elif nd[0] in ("IF", "C", "CN"):
+            nd = (nd[0], _anon_lines(nd[1], same_line))
+        if nd[0] == "B" and nd[1] is None and not same_line:
+            out.append(NL)
+        out.append(nd)
+    return out
 
 
 def grid_file(case, al):
@@ -644,7 +664,9 @@ def grid_file(case, al):
         d = ("D", x, [("T", "(def %s)" % x)], "")
         body += ([d] + _place(p, bx, 1)) if q == "def-first" else (_place(p, bx, 1) + [d])
     elif kind == "anon2":
+        # same = both anonymous blocks (and their anonymous wrappers) start on one line; else each on its own line
         body += _place(p, ("B", None, [("T", "<a1>")]), 1) + _place(q, ("B", None, [("T", "<a2>")]), 2)
+        body = _anon_lines(body, same)
     else:
         raise ValueError(kind)
     body.append(("T", "]"))
@@ -669,5 +691,6 @@ def grid_cases(tier):
             out.append(("defblock", p, q, True))
     for p in GRID_POS:
         for q in GRID_POS:
-            out.append(("anon2", p, q, True))
+            for same in (True, False):
+                out.append(("anon2", p, q, same))
     return out
